@@ -33,6 +33,9 @@ type CollationOrderKey[K chars | []rune] struct {
 func (cok *CollationOrderKey[K]) Transform(k K) ([]byte, []byte) {
 	cok.src = k
 	b := []byte(string(k))
+
+	// the buffer only ever grows unless it is reset; the key is copied out below
+	cok.buf.Reset()
 	key := cok.c.Key(cok.buf, b)
 
 	// A collation key can be a proper prefix of another one (e.g. when the
